@@ -86,8 +86,14 @@ func (self ValueString) Fields() (map[string]*Value, *Interrupt) {
 		}),
 		"parse_json": NewValueBuiltinFunction(func(executor Executor, cancelCtx *context.Context, span errors.Span, args ...Value) (*Value, *Interrupt) {
 			var raw interface{}
-			if err := json.Unmarshal([]byte(self.Inner), &raw); err != nil {
+			// numbers are kept as written so that `2.0` stays a float
+			decoder := json.NewDecoder(strings.NewReader(self.Inner))
+			decoder.UseNumber()
+			if err := decoder.Decode(&raw); err != nil {
 				return nil, NewRuntimeErr(fmt.Sprintf("JSON parse error: %s", err.Error()), JsonErrorKind, span)
+			}
+			if decoder.More() {
+				return nil, NewRuntimeErr("JSON parse error: unexpected data after top-level value", JsonErrorKind, span)
 			}
 			value, i := unmarshalValue(span, raw)
 			if i != nil {
